@@ -636,6 +636,22 @@ def r9_cascade_exemptions(ctx: Context) -> None:
             ctx.check(any(isinstance(y, ast.Break) for y in ex.body) or any(isinstance(y, ast.Continue) for y in ex.body),
                       "C06.R9", "TaskGraph.cancel|exemption leaves the iteration", loc(ex), "break/continue", "falls through to cancel")
     ctx.floor("C06.R9", "conditional-join exemption", n_term, 1)
+    # the remaining exemptions may only spare descendants that are already out of play: evaluated for every TaskState member,
+    # an exemption that holds for a VIRTUAL / RELEASED / SCHEDULED descendant keeps a task alive that lost its inputs
+    interp, _c, _w = task_interp(ctx.repo)
+    interp.dotted_aliases[f"{lv}.state"] = "_state"
+    for ex in exemptions:
+        if "terminal" in norm(ex.test):
+            continue
+        spared = []
+        for st_name in interp.members:
+            v = interp.ev(ex.test, {"_state": st_name, "_pre_scheduling_state": "VIRTUAL"})
+            if v != ("bool", False):
+                spared.append(st_name if v == ("bool", True) else st_name + "?")
+        live = [x for x in spared if x.rstrip("?") in ("VIRTUAL", "RELEASED", "SCHEDULED")]
+        ctx.check(not live, "C06.R9", f"TaskGraph.cancel|exemption `{norm(ex.test)[:50]}` spares only tasks that are out of play", loc(ex),
+                  f"holds for {spared}", f"the cascade stops at a descendant in state {live} (`{norm(ex.test)[:80]}`): a not-yet-started task "
+                  "that lost its inputs (e.g. a SCHEDULED task of the branch not taken) stays alive with its pending placement and runs")
 
 
 def run(ctx: Context) -> None:
